@@ -13,7 +13,7 @@ RULE = ("finite matrix worker class {sync,gthread,gevent,eventlet} x phase of a 
         "partly sent, application running (gate file), response partly written, keep-alive idle} x application {finishes 0.3 s after the "
         "signal, overruns graceful_timeout, never finishes} x signal {TERM, INT, QUIT} x bind {tcp, unix} (plus the history 'one HUP before the signal' for every class x signal x bind, and two-listener servers with the request on either listener), each with a real master + "
         "worker started from the working tree, graceful_timeout=4, plus a seeded sub-second jitter before the signal (thorough: the "
-        "whole matrix; quick: a seeded slice of up to 96 cells). Oracle: TERM and a request a worker had started reading and an application "
+        "whole matrix; quick: a seeded slice of up to 112 cells). Oracle: TERM and a request a worker had started reading and an application "
         "finishing in time => complete response (independent response reader); master exit status 0 within graceful_timeout+4 s (INT/"
         "QUIT: within 4 s); afterwards no process of the master's session alive, listener not connectable, pid file and unix socket file "
         "gone. (K) the real Arbiter.run() on C03's simulated kernel: pool 1-4 x history of worker deaths / workers on their way out / "
@@ -72,21 +72,21 @@ def extra_cases(tier, seed, shard, nshards):
         picked = []
         seen = set()
         for c in cells:
-            k = (c["kind"], c["phase"], "TERM" if c["sig"] == "TERM" else "quick", c.get("prelude"), c.get("two_binds") is not None, c["bind"] if c.get("two_binds") is not None else None, bool(c.get("reuse_port")))
+            k = (c["kind"], c["phase"], "TERM" if c["sig"] == "TERM" else "quick", c.get("prelude"), c.get("two_binds"), c["bind"] if c.get("two_binds") is not None else None, bool(c.get("reuse_port")))
             k = k + (c["bind"],) if c["phase"] == "keepalive-head-partial" else k
             if k not in seen or (c["app"] == "finish" and c["sig"] == "TERM" and (c["kind"], c["phase"], "f") not in seen):
                 seen.add(k)
                 if c["app"] == "finish" and c["sig"] == "TERM":
                     seen.add((c["kind"], c["phase"], "f"))
                 picked.append(c)
-        cells = picked[:96]
+        cells = picked[:112]
     for i, c in enumerate(cells):
         if i % nshards == shard:
             j = int(hashlib.sha1(("%d-%d" % (seed, i)).encode()).hexdigest()[:4], 16) / 65535.0
             yield dict(c, jitter=round(0.05 + 0.4 * j, 3))
 
 
-EXHAUSTIVE_NOTE = "thorough tier enumerates all %d cells of the matrix; quick a seeded slice of up to 96" % len(list(matrix()))
+EXHAUSTIVE_NOTE = "thorough tier enumerates all %d cells of the matrix; quick a seeded slice of up to 112" % len(list(matrix()))
 
 
 def strategy(tier):
